@@ -38,17 +38,33 @@ Qed.
 Theorem find_secrets_none : forall t,
   find_secrets t = None <-> (forall m, reach t m -> offending m = false).
 Proof.
-  induction t as [| | | | |fs IH|t IH|t IH|t IH|t IH] using ty_ind';
+  induction t as [| | | | |fs IH|t IH|t IH|k t IHk IHt|t IH] using ty_ind';
     try (split; [intros _ m R; inversion R | reflexivity]).
   - (* struct *)
     rewrite find_secrets_struct, fields_loop_none. rewrite Forall_forall in IH. split.
-    + intros H m R. inversion R as [fs' m' t Hin | fs' m0 t m' Hin Rt |]; subst.
+    + intros H m R. inversion R as [fs' m' t Hin | fs' m0 t m' Hin Rt | | | | |]; subst.
       * destruct (H (m, t) Hin) as [H1 _]. exact H1.
       * destruct (H (m0, t) Hin) as [_ H2]. apply (proj1 (IH (m0, t) Hin) H2 m Rt).
     + intros H [m t] Hin. simpl. split.
       * apply H. eapply R_here. eassumption.
       * apply (IH (m, t) Hin). intros m' R. apply H. eapply R_field; eassumption.
   - (* pointer *)
+    simpl. rewrite IH. split; intros H m R.
+    + inversion R; subst. apply H. assumption.
+    + apply H. constructor. assumption.
+  - (* slice *)
+    simpl. rewrite IH. split; intros H m R.
+    + inversion R; subst. apply H. assumption.
+    + apply H. constructor. assumption.
+  - (* map *)
+    simpl. destruct (find_secrets k) eqn:Fk.
+    + split; [discriminate|]. intros H.
+      assert (Hk : Some l = None) by (apply IHk; intros m R; apply H; apply R_map_key; exact R).
+      discriminate.
+    + rewrite IHt. split; intros H m R.
+      * inversion R; subst; [apply (proj1 IHk eq_refl); assumption | apply H; assumption].
+      * apply H. apply R_map_elem. assumption.
+  - (* array *)
     simpl. rewrite IH. split; intros H m R.
     + inversion R; subst. apply H. assumption.
     + apply H. constructor. assumption.
@@ -62,7 +78,7 @@ Proof.
   intros t. split.
   - intros H. destruct (find_secrets t) eqn:F; [|congruence]. clear H.
     (* by contradiction-free search: decide over the finite type *)
-    revert l F. induction t as [| | | | |fs IH|t IH|t IH|t IH|t IH] using ty_ind'; intros path F; try discriminate.
+    revert l F. induction t as [| | | | |fs IH|t IH|t IH|k t IHk IHt|t IH] using ty_ind'; intros path F; try discriminate.
     + rewrite find_secrets_struct in F. rewrite Forall_forall in IH.
       assert (G : forall l i path, (forall p, In p l -> In p fs) -> fields_loop i l = Some path ->
                                    exists m, reach (TyStruct fs) m /\ offending m = true).
@@ -74,6 +90,11 @@ Proof.
             exists m'. split; [|assumption]. eapply R_field; [apply Sub; left; reflexivity | exact R].
           + apply (IHl (S i) pa); [intros q Hq; apply Sub; right; assumption | assumption]. }
       apply (G fs 0 path (fun p H => H) F).
+    + simpl in F. destruct (IH path F) as [m [R O]]. exists m. split; [constructor; assumption | assumption].
+    + simpl in F. destruct (IH path F) as [m [R O]]. exists m. split; [constructor; assumption | assumption].
+    + simpl in F. destruct (find_secrets k) as [pk|] eqn:Fk.
+      * destruct (IHk pk eq_refl) as [m [R O]]. exists m. split; [apply R_map_key; assumption | assumption].
+      * destruct (IHt path F) as [m [R O]]. exists m. split; [apply R_map_elem; assumption | assumption].
     + simpl in F. destruct (IH path F) as [m [R O]]. exists m. split; [constructor; assumption | assumption].
   - intros [m [R O]] F. rewrite find_secrets_none in F. rewrite (F m R) in O. discriminate.
 Qed.
